@@ -170,10 +170,12 @@ Print Assumptions C11_max.
 Print Assumptions C11_min.
 (* ... and it is the FIRST such argument: everything before it is strictly smaller (max) / strictly larger (min) *)
 Theorem C11_max_first : forall tz vs, vs <> [] -> Forall (fun v => no_nan v = true) vs ->
-  exists l1 l2, vs = l1 ++ math_max tz vs :: l2 /                Forall (fun v => compare tz v (math_max tz vs) = Lt) l1 /\ Forall (fun v => compare tz v (math_max tz vs) <> Gt) l2.
+  exists l1 l2, vs = l1 ++ math_max tz vs :: l2 /\
+                Forall (fun v => compare tz v (math_max tz vs) = Lt) l1 /\ Forall (fun v => compare tz v (math_max tz vs) <> Gt) l2.
 Proof. exact math_max_first. Qed.
 Theorem C11_min_first : forall tz vs, vs <> [] -> Forall (fun v => no_nan v = true) vs ->
-  exists l1 l2, vs = l1 ++ math_min tz vs :: l2 /                Forall (fun v => compare tz (math_min tz vs) v = Lt) l1 /\ Forall (fun v => compare tz (math_min tz vs) v <> Gt) l2.
+  exists l1 l2, vs = l1 ++ math_min tz vs :: l2 /\
+                Forall (fun v => compare tz (math_min tz vs) v = Lt) l1 /\ Forall (fun v => compare tz (math_min tz vs) v <> Gt) l2.
 Proof. exact math_min_first. Qed.
 Print Assumptions C11_max_first.
 
